@@ -243,7 +243,7 @@ func (m *Model) Check(req Req, resp []byte, closed bool) (why string, class stri
 
 func (m *Model) check(req Req, resp []byte, closed bool) (why string, class string) {
 	if req.Raw == nil && (req.Op == opReadFile || req.Op == opReadFileCritical) {
-		m.lastEnd = int64(req.Off) + int64(req.Limit)
+		m.lastEnd = int64(req.Off + uint64(req.Limit))
 	}
 	bad := func(f string, a ...any) (string, string) { return fmt.Sprintf(f, a...), "bad:" + slug(f) }
 	if req.Raw != nil {
@@ -544,8 +544,9 @@ func (m *Model) check(req Req, resp []byte, closed bool) (why string, class stri
 			}
 			return "", "read-undefined"
 		}
+		// the offset is unsigned on the wire: anything at or beyond the size (incl. >= 2^63) is an empty range
 		n := int64(req.Limit)
-		if int64(req.Off) >= m.ro.size {
+		if req.Off >= uint64(m.ro.size) {
 			n = 0
 		} else if int64(req.Off)+n > m.ro.size {
 			n = m.ro.size - int64(req.Off)
@@ -587,9 +588,9 @@ func (m *Model) check(req Req, resp []byte, closed bool) (why string, class stri
 			}
 			return "", "readc-undefined"
 		}
-		avail := m.ro.size - int64(req.Off)
-		if avail < 0 {
-			avail = 0
+		avail := int64(0)
+		if req.Off < uint64(m.ro.size) {
+			avail = m.ro.size - int64(req.Off)
 		}
 		if avail >= int64(req.Limit) {
 			if closed {
